@@ -6,6 +6,7 @@ package hx
 import (
 	"bytes"
 	"encoding/json"
+	"flag"
 	"fmt"
 	"hash/fnv"
 	"math/rand"
@@ -18,26 +19,26 @@ import (
 
 // Report is what a property sub-command prints on stdout (one JSON object).
 type Report struct {
-	Property     string                 `json:"property"`
-	Tier         string                 `json:"tier"`
-	Seed         int64                  `json:"seed"`
-	Evaluations  int                    `json:"evaluations"`
-	Nontrivial   int                    `json:"distinct_nontrivial"`
-	Rule         string                 `json:"rule"`
-	Samples      []interface{}          `json:"samples"`
-	Histogram    map[string]int         `json:"histogram"`
-	Traces       int                    `json:"traces_validated_against_impl"`
-	Disagree     []Disagreement         `json:"disagreements"`
-	Violations   []Violation            `json:"violations"`
-	Extra        map[string]interface{} `json:"extra,omitempty"`
-	Exhaustive   bool                   `json:"exhaustive,omitempty"`
-	distinct     map[uint64]bool
+	Property    string                 `json:"property"`
+	Tier        string                 `json:"tier"`
+	Seed        int64                  `json:"seed"`
+	Evaluations int                    `json:"evaluations"`
+	Nontrivial  int                    `json:"distinct_nontrivial"`
+	Rule        string                 `json:"rule"`
+	Samples     []interface{}          `json:"samples"`
+	Histogram   map[string]int         `json:"histogram"`
+	Traces      int                    `json:"traces_validated_against_impl"`
+	Disagree    []Disagreement         `json:"disagreements"`
+	Violations  []Violation            `json:"violations"`
+	Extra       map[string]interface{} `json:"extra,omitempty"`
+	Exhaustive  bool                   `json:"exhaustive,omitempty"`
+	distinct    map[uint64]bool
 }
 
 // Disagreement: model and implementation answered differently.
 type Disagreement struct {
-	Where  string   `json:"where"`  // correspondence point (model / op kind)
-	Index  int      `json:"index"`  // op index in the history
+	Where  string   `json:"where"` // correspondence point (model / op kind)
+	Index  int      `json:"index"` // op index in the history
 	Impl   string   `json:"impl"`
 	Model  string   `json:"model"`
 	Replay string   `json:"replay"` // path of the ops file written
@@ -97,7 +98,7 @@ func (r *Report) Emit() {
 type Env struct {
 	Tier   string
 	Seed   int64
-	Driver string // path of gxdriver
+	Driver string // directory holding the gxdrv_<model> executables
 	Out    string // directory for replay files
 	Rng    *rand.Rand
 	Replay string // if set: replay this file only
@@ -130,22 +131,22 @@ func (e *Env) WriteReplay(prop, kind, name string, header []string, ops []string
 	return p
 }
 
-// RunDriver pipes lines to `gxdriver <model>` and returns its output lines (one per input line).
-func (e *Env) RunDriver(model string, lines []string) ([]string, error) {
-	cmd := exec.Command(e.Driver, model)
+// RunDriver pipes lines to the Lean driver `gxdrv_<model>` and returns its output lines (one per input line).
+func (e *Env) RunDriver(model string, lines []string, args ...string) ([]string, error) {
+	if len(lines) == 0 {
+		return nil, nil
+	}
+	cmd := exec.Command(e.Driver+"/gxdrv_"+model, args...)
 	cmd.Stdin = strings.NewReader(strings.Join(lines, "\n") + "\n")
 	var out, errb bytes.Buffer
 	cmd.Stdout = &out
 	cmd.Stderr = &errb
 	if err := cmd.Run(); err != nil {
-		return nil, fmt.Errorf("gxdriver %s: %v: %s", model, err, errb.String())
+		return nil, fmt.Errorf("gxdrv_%s: %v: %s", model, err, errb.String())
 	}
 	res := strings.Split(strings.TrimRight(out.String(), "\n"), "\n")
-	if len(lines) == 0 {
-		return nil, nil
-	}
 	if len(res) != len(lines) {
-		return res, fmt.Errorf("gxdriver %s: %d input lines, %d output lines", model, len(lines), len(res))
+		return res, fmt.Errorf("gxdrv_%s: %d input lines, %d output lines", model, len(lines), len(res))
 	}
 	return res, nil
 }
@@ -194,4 +195,19 @@ func ReadOps(path string) ([]string, error) {
 		ops = append(ops, l)
 	}
 	return ops, nil
+}
+
+// Main is the entry point of every per-property harness command.
+func Main(id string, f func(e *Env) *Report) {
+	fs := flag.NewFlagSet(id, flag.ExitOnError)
+	tier := fs.String("tier", "quick", "quick|thorough")
+	seed := fs.Int64("seed", 1, "PRNG seed (VERIF_SEED)")
+	driver := fs.String("driverdir", "/verif/lean/.lake/build/bin", "directory of the gxdrv_<model> executables")
+	out := fs.String("out", "/verif/out/replay", "directory for replay files")
+	replay := fs.String("replay", "", "replay this ops file only")
+	fs.Parse(os.Args[1:])
+	e := &Env{Tier: *tier, Seed: *seed, Driver: *driver, Out: *out, Replay: *replay,
+		Rng: rand.New(rand.NewSource(*seed))}
+	r := f(e)
+	r.Emit()
 }
